@@ -352,11 +352,13 @@ def lean_prepare(ctx, leanchecker=None):
                 ctx.broken.append("module %s no longer checks: %s" % (m, tail_err(r.stdout)))
         # axiom audit
         ax = {}
-        if theorems and all(mods_ok.values()):
+        if theorems and any(mods_ok.values()):
+            # modules that no longer check are left out, so that the theorems of the others are still audited
             probe = os.path.join(ctx.build, "Audit.lean")
             with open(probe, "w") as f:
                 for m in modules:
-                    f.write("import %s\n" % m)
+                    if mods_ok[m]:
+                        f.write("import %s\n" % m)
                 for t in theorems:
                     f.write("#print axioms %s\n" % t)
             r = sh(["lake", "env", "lean", probe], cwd=LEAN)
